@@ -432,6 +432,8 @@ val forallb : ('a1 -> bool) -> 'a1 list -> bool
 
 val filter : ('a1 -> bool) -> 'a1 list -> 'a1 list
 
+val combine : 'a1 list -> 'a2 list -> ('a1 * 'a2) list
+
 val firstn : nat -> 'a1 list -> 'a1 list
 
 val skipn : nat -> 'a1 list -> 'a1 list
@@ -1203,6 +1205,16 @@ val abs_disk : n -> n -> n -> bool -> disk -> abs_result
 
 val empty_disk : disk
 
+type 'entry slot = 'entry option
+
+type 'entry dir = 'entry slot list
+
+val scan :
+  ('a1 -> n) -> 'a1 dir -> nat -> n -> n -> ((nat * 'a1) list * bool) * nat
+
+val page :
+  ('a1 -> n) -> 'a1 dir -> nat -> n -> ((nat * 'a1) list * bool) * nat
+
 type oattrs = { oa_ftype : n; oa_size : n; oa_fileid : n; oa_atime : 
                 (n * n); oa_mtime : (n * n); oa_nlink : n }
 
@@ -1274,6 +1286,18 @@ val dir_slot_list : n -> disk -> n -> ((name * n) * n) list
 val triple_eqb : ((name * n) * n) -> ((name * n) * n) -> bool
 
 val name_cache_ok : n -> disk -> n -> ((name * n) * n) list -> bool
+
+val enum_names : afs -> inum -> name list
+
+val dir_slots_of : n -> disk -> n -> (name * n) option list
+
+val readdir_cost : (name * n) -> n
+
+val model_page :
+  (name * n) option list -> n -> n -> ((nat * (name * n)) list * bool) * nat
+
+val readdir_matches_model :
+  n -> disk -> n -> n -> n -> odirent list -> bool -> bool
 
 val lOGSZ : n
 
